@@ -100,6 +100,11 @@ theorem getL_of_some {l : List β} {i : Nat} {v : β} (h : l[i]? = some v) : get
 theorem getL_none {l : List β} {i : Nat} (h : l[i]? = none) : getL l i = .panic "index" := by
   unfold getL; rw [h]
 
+theorem rmap_bind (f : τ → υ) (r : Res σ) (k : σ → Res τ) :
+    rmap f (r.bind k) = r.bind (fun x => rmap f (k x)) := by cases r <;> rfl
+theorem bind_rmap (f : σ → τ) (r : Res σ) (k : τ → Res υ) :
+    (rmap f r).bind k = r.bind (fun x => k (f x)) := by cases r <;> rfl
+
 end generic
 
 /-! ## Vocabulary of the C06 statements -/
@@ -563,6 +568,664 @@ theorem routeCats_eq_flatMap : ∀ (links : List (Link α)) (b : α),
   | l :: ls, b => by simp [routeCats, prefixOffs, routeCats_eq_flatMap ls]
 
 
+/-- `s` with the loop-1 fields (`speedPoints`, `linkPoints`) of `u` -/
+def lpSet (s u : Tpc α) : Tpc α := { s with speedPoints := u.speedPoints, linkPoints := u.linkPoints }
+/-- `s` with the loop-2 fields (`grades`, `curves`, `cats`) of `u` -/
+def geoSet (s u : Tpc α) : Tpc α := { s with grades := u.grades, curves := u.curves, cats := u.cats }
+
+/-- loop 1 writes only `speedPoints` and `linkPoints` -/
+theorem extendLinkPoint_writes (toU32 : α → Nat) (net : List (Link α)) {s s' : Tpc α} {idx : Nat}
+    (h : extendLinkPoint toU32 net s idx = .ok s') : s' = lpSet s s' := by
+  rw [extendLinkPoint_eq] at h
+  obtain ⟨_, _, h⟩ := bind_eq_ok.mp h
+  obtain ⟨_, _, h⟩ := bind_eq_ok.mp h
+  obtain ⟨_, _, h⟩ := bind_eq_ok.mp h
+  obtain ⟨_, _, h⟩ := bind_eq_ok.mp h
+  obtain ⟨_, _, h⟩ := bind_eq_ok.mp h
+  obtain ⟨_, _, h⟩ := bind_eq_ok.mp h
+  cases h; rfl
+
+/-- loop 1 reads only `linkPoints`, `speedPoints` and `par` -/
+theorem lp_frame_step (toU32 : α → Nat) (net : List (Link α)) (s s2 : Tpc α) (idx : Nat)
+    (h1 : s2.linkPoints = s.linkPoints) (h2 : s2.speedPoints = s.speedPoints) (h3 : s2.par = s.par) :
+    extendLinkPoint toU32 net s2 idx = rmap (lpSet s2) (extendLinkPoint toU32 net s idx) := by
+  cases s; cases s2; simp only at h1 h2 h3; subst h1 h2 h3
+  rw [extendLinkPoint_eq, extendLinkPoint_eq]
+  simp only [rmap_bind]
+  rfl
+
+theorem lp_frame (toU32 : α → Nat) (net : List (Link α)) : ∀ (route : List Nat) (s s2 : Tpc α),
+    s2.linkPoints = s.linkPoints → s2.speedPoints = s.speedPoints → s2.par = s.par →
+    foldR (extendLinkPoint toU32 net) s2 route = rmap (lpSet s2) (foldR (extendLinkPoint toU32 net) s route) := by
+  intro route
+  induction route with
+  | nil =>
+    intro s s2 h1 h2 h3
+    cases s2; cases s; simp only at h1 h2 h3; subst h1 h2 h3; rfl
+  | cons i r ih =>
+    intro s s2 h1 h2 h3
+    rw [foldR_cons, foldR_cons, lp_frame_step toU32 net s s2 i h1 h2 h3, rmap_bind, bind_rmap]
+    cases hs : extendLinkPoint toU32 net s i with
+    | ok s' =>
+      have hw := extendLinkPoint_writes toU32 net hs
+      simp only [bind_ok]
+      rw [ih s' (lpSet s2 s') rfl rfl (by rw [hw]; exact h3)]
+      rfl
+    | err e => rfl
+    | panic e => rfl
+
+/-- loop 2 writes only `grades`, `curves` and `cats` -/
+theorem extendGeometry_writes (g : GeoConsts α) (net : List (Link α)) {s s' : Tpc α} {idx : Nat}
+    (h : extendGeometry g net s idx = .ok s') : s' = geoSet s s' := by
+  rw [extendGeometry_eq] at h
+  obtain ⟨_, _, h⟩ := bind_eq_ok.mp h
+  obtain ⟨_, _, h⟩ := bind_eq_ok.mp h
+  obtain ⟨_, _, h⟩ := bind_eq_ok.mp h
+  cases h; rfl
+
+/-- loop 2 reads only `grades`, `curves`, `cats` and `par` -/
+theorem geo_frame_step (g : GeoConsts α) (net : List (Link α)) (s s2 : Tpc α) (idx : Nat)
+    (h1 : s2.grades = s.grades) (h2 : s2.curves = s.curves) (h3 : s2.cats = s.cats) (h4 : s2.par = s.par) :
+    extendGeometry g net s2 idx = rmap (geoSet s2) (extendGeometry g net s idx) := by
+  cases s; cases s2; simp only at h1 h2 h3 h4; subst h1 h2 h3 h4
+  rw [extendGeometry_eq, extendGeometry_eq]
+  simp only [rmap_bind]
+  rfl
+
+theorem geo_frame (g : GeoConsts α) (net : List (Link α)) : ∀ (route : List Nat) (s s2 : Tpc α),
+    s2.grades = s.grades → s2.curves = s.curves → s2.cats = s.cats → s2.par = s.par →
+    foldR (extendGeometry g net) s2 route = rmap (geoSet s2) (foldR (extendGeometry g net) s route) := by
+  intro route
+  induction route with
+  | nil =>
+    intro s s2 h1 h2 h3 h4
+    cases s2; cases s; simp only at h1 h2 h3 h4; subst h1 h2 h3 h4; rfl
+  | cons i r ih =>
+    intro s s2 h1 h2 h3 h4
+    rw [foldR_cons, foldR_cons, geo_frame_step g net s s2 i h1 h2 h3 h4, rmap_bind, bind_rmap]
+    cases hs : extendGeometry g net s i with
+    | ok s' =>
+      have hw := extendGeometry_writes g net hs
+      simp only [bind_ok]
+      rw [ih s' (geoSet s2 s') rfl rfl rfl (by rw [hw]; exact h4)]
+      rfl
+    | err e => rfl
+    | panic e => rfl
+
+theorem lp_fold_writes (toU32 : α → Nat) (net : List (Link α)) : ∀ (route : List Nat) (s s' : Tpc α),
+    foldR (extendLinkPoint toU32 net) s route = .ok s' → s' = lpSet s s' := by
+  intro route
+  induction route with
+  | nil => intro s s' h; cases h; rfl
+  | cons i r ih =>
+    intro s s' h
+    rw [foldR_cons, bind_eq_ok] at h
+    obtain ⟨s1, h1, h2⟩ := h
+    have e1 := extendLinkPoint_writes toU32 net h1
+    have e2 := ih s1 s' h2
+    rw [e2, e1]; rfl
+
+theorem geo_fold_writes (g : GeoConsts α) (net : List (Link α)) : ∀ (route : List Nat) (s s' : Tpc α),
+    foldR (extendGeometry g net) s route = .ok s' → s' = geoSet s s' := by
+  intro route
+  induction route with
+  | nil => intro s s' h; cases h; rfl
+  | cons i r ih =>
+    intro s s' h
+    rw [foldR_cons, bind_eq_ok] at h
+    obtain ⟨s1, h1, h2⟩ := h
+    have e1 := extendGeometry_writes g net h1
+    have e2 := ih s1 s' h2
+    rw [e2, e1]; rfl
+
+/-! ### `add_speeds` keeps the speed-point vector non-empty -/
+
+theorem removeAt_ne_nil {pts r : List (Pt α)} {i : Nat} (hi : 0 < i) (h : removeAt pts i = .ok r) : r ≠ [] := by
+  unfold removeAt at h
+  split_ifs at h with hlt
+  cases h
+  intro h0
+  have := congrArg List.length h0
+  simp [List.length_eraseIdx, hlt] at this
+  omega
+
+theorem setSpd_ne_nil {pts r : List (Pt α)} {i : Nat} {v : α} (hne : pts ≠ []) (h : setSpd pts i v = .ok r) : r ≠ [] := by
+  unfold setSpd at h
+  split at h
+  · cases h; simpa using hne
+  · cases h
+
+theorem insertAt_ne_nil {pts r : List (Pt α)} {i : Nat} {p : Pt α} (h : insertAt pts i p = .ok r) : r ≠ [] := by
+  unfold insertAt at h
+  split_ifs at h with hle
+  cases h
+  intro h0
+  have := congrArg List.length h0
+  rw [List.length_insertIdx_of_le_length hle] at this
+  simp at this
+
+theorem updLoop_ne_nil (v : α) : ∀ (f : Nat) (pts : List (Pt α)) (is ie : Nat) (r : List (Pt α) × Nat),
+    pts ≠ [] → updLoop v f pts is ie = .ok r → r.1 ≠ [] := by
+  intro f
+  induction f with
+  | zero => intro pts is ie r _ h; cases h
+  | succ f ih =>
+    intro pts is ie r hne h
+    rw [updLoop] at h
+    by_cases hlt : is < ie
+    · rw [if_pos hlt] at h
+      simp only [bind, pure] at h
+      obtain ⟨p, hp, h⟩ := bind_eq_ok.mp h
+      obtain ⟨merge, hm, h⟩ := bind_eq_ok.mp h
+      cases merge with
+      | true =>
+        simp only [if_true] at h
+        obtain ⟨pts', hr, h⟩ := bind_eq_ok.mp h
+        have his : 0 < is := by
+          by_contra hc
+          have : ¬ (is > 0) := hc
+          rw [if_neg this] at hm
+          cases hm
+        exact ih pts' is (ie - 1) r (removeAt_ne_nil his hr) h
+      | false =>
+        simp only [Bool.false_eq_true, if_false] at h
+        obtain ⟨pts', hr, h⟩ := bind_eq_ok.mp h
+        exact ih pts' (is + 1) ie r (setSpd_ne_nil hne hr) h
+    · rw [if_neg hlt] at h; cases h; exact hne
+
+theorem pre_ne_nil {pts : List (Pt α)} {l : Lim α} (h : pre pts l = true) : pts ≠ [] := by
+  intro h0; subst h0; simp [pre] at h
+
+theorem insertSpeedIdx_ne_nil {pts r : List (Pt α)} {l : Lim α} (h : insertSpeedIdx pts l = .ok r) : r ≠ [] := by
+  unfold insertSpeedIdx at h
+  by_cases hpre : pre pts l = true
+  · have hne := pre_ne_nil hpre
+    simp only [hpre, Bool.not_true, Bool.false_eq_true, if_false, bind, pure] at h
+    obtain ⟨last, hlast, h⟩ := bind_eq_ok.mp h
+    by_cases hle : last.off ≤ l.s
+    · rw [if_pos hle] at h
+      by_cases hnb : neb last.spd (minSpeed last.spd l.v) = true
+      · rw [if_pos hnb] at h
+        by_cases hlt : last.off < l.s
+        · rw [if_pos hlt] at h; cases h; simp
+        · rw [if_neg hlt] at h
+          obtain ⟨m, _, h⟩ := bind_eq_ok.mp h
+          cases m
+          · simp only [Bool.false_eq_true, if_false] at h; cases h; simp
+          · simp only [if_true] at h; cases h; simpa using hne
+      · rw [if_neg hnb] at h; cases h; exact hne
+    · rw [if_neg hle] at h
+      obtain ⟨is, _, h⟩ := bind_eq_ok.mp h
+      obtain ⟨ie, _, h⟩ := bind_eq_ok.mp h
+      obtain ⟨peOld, _, h⟩ := bind_eq_ok.mp h
+      obtain ⟨pS, _, h⟩ := bind_eq_ok.mp h
+      obtain ⟨x1, h1, h⟩ := bind_eq_ok.mp h
+      obtain ⟨x2, h2, h⟩ := bind_eq_ok.mp h
+      obtain ⟨x3, h3, h⟩ := bind_eq_ok.mp h
+      have n1 : x1.1 ≠ [] := by
+        by_cases c1 : l.s < pS.off
+        · rw [if_pos c1] at h1
+          by_cases c2 : is = 0
+          · rw [if_pos c2] at h1; cases h1
+          · rw [if_neg c2] at h1
+            obtain ⟨q, _, h1⟩ := bind_eq_ok.mp h1
+            by_cases c3 : neb q.spd (minSpeed q.spd l.v) = true
+            · rw [if_pos c3] at h1
+              obtain ⟨p', hp', h1⟩ := bind_eq_ok.mp h1
+              cases h1; exact insertAt_ne_nil hp'
+            · rw [if_neg c3] at h1; cases h1; exact hne
+        · rw [if_neg c1] at h1; cases h1; exact hne
+      have n2 : x2.1 ≠ [] := by
+        by_cases c1 : peOld.off < l.e
+        · rw [if_pos c1] at h2
+          by_cases c3 : neb peOld.spd (minSpeed peOld.spd l.v) = true
+          · rw [if_pos c3] at h2
+            obtain ⟨p', hp', h2⟩ := bind_eq_ok.mp h2
+            cases h2; exact insertAt_ne_nil hp'
+          · rw [if_neg c3] at h2; cases h2; exact n1
+        · rw [if_neg c1] at h2; cases h2; exact n1
+      have n3 : x3.1 ≠ [] := updLoop_ne_nil _ _ _ _ _ _ n2 h3
+      by_cases c1 : x3.2 > 0
+      · rw [if_pos c1] at h
+        obtain ⟨a, _, h⟩ := bind_eq_ok.mp h
+        obtain ⟨b, _, h⟩ := bind_eq_ok.mp h
+        by_cases c2 : eqb a.spd b.spd = true
+        · rw [if_pos c2] at h; exact removeAt_ne_nil c1 h
+        · rw [if_neg c2] at h; cases h; exact n3
+      · rw [if_neg c1] at h; cases h; exact n3
+  · simp [hpre] at h
+
+theorem foldlM_ne_nil {β : Type} (f : List (Pt α) → β → Res (List (Pt α)))
+    (hf : ∀ acc x r, acc ≠ [] → f acc x = .ok r → r ≠ []) :
+    ∀ (xs : List β) (acc r : List (Pt α)), acc ≠ [] → xs.foldlM f acc = .ok r → r ≠ [] := by
+  intro xs
+  induction xs with
+  | nil => intro acc r hne h; simp only [List.foldlM_nil, pure] at h; cases h; exact hne
+  | cons x xs ih =>
+    intro acc r hne h
+    simp only [List.foldlM_cons, bind] at h
+    obtain ⟨a1, h1, h2⟩ := bind_eq_ok.mp h
+    exact ih a1 r (hf acc x a1 hne h1) h2
+
+/-- `add_speeds` never empties the speed-point vector -/
+theorem addSpeedsIdx_ne_nil (toU32 : α → Nat) {pts r : List (Pt α)} {tp : TrainP α} {ps : List (SParam α)}
+    {isHeadEnd : Bool} {lims : List (Lim α)} {base : α} (hne : pts ≠ [])
+    (h : addSpeedsIdx toU32 pts tp ps isHeadEnd lims base = .ok r) : r ≠ [] := by
+  unfold addSpeedsIdx at h
+  split_ifs at h
+  · refine foldlM_ne_nil _ ?_ lims pts r hne h
+    intro acc x r' hacc hr
+    split_ifs at hr
+    · exact insertSpeedIdx_ne_nil hr
+    · cases hr; exact hacc
+  · cases h; exact hne
+
+theorem extendLinkPoint_ne_nil (toU32 : α → Nat) (net : List (Link α)) {s s' : Tpc α} {idx : Nat}
+    (h : extendLinkPoint toU32 net s idx = .ok s') (hsp : s.speedPoints ≠ []) :
+    s'.linkPoints ≠ [] ∧ s'.speedPoints ≠ [] := by
+  rw [extendLinkPoint_eq] at h
+  obtain ⟨_, _, h⟩ := bind_eq_ok.mp h
+  obtain ⟨_, _, h⟩ := bind_eq_ok.mp h
+  obtain ⟨_, _, h⟩ := bind_eq_ok.mp h
+  obtain ⟨_, _, h⟩ := bind_eq_ok.mp h
+  obtain ⟨_, _, h⟩ := bind_eq_ok.mp h
+  obtain ⟨sp, hsp', h⟩ := bind_eq_ok.mp h
+  cases h
+  exact ⟨by simp, addSpeedsIdx_ne_nil toU32 hsp hsp'⟩
+
+theorem lp_fold_ne_nil (toU32 : α → Nat) (net : List (Link α)) : ∀ (route : List Nat) (s s' : Tpc α),
+    foldR (extendLinkPoint toU32 net) s route = .ok s' → s.linkPoints ≠ [] → s.speedPoints ≠ [] →
+    s'.linkPoints ≠ [] ∧ s'.speedPoints ≠ [] := by
+  intro route
+  induction route with
+  | nil => intro s s' h h1 h2; cases h; exact ⟨h1, h2⟩
+  | cons i r ih =>
+    intro s s' h h1 h2
+    rw [foldR_cons, bind_eq_ok] at h
+    obtain ⟨s1, hs1, h⟩ := h
+    obtain ⟨a, b⟩ := extendLinkPoint_ne_nil toU32 net hs1 h2
+    exact ih s1 s' h a b
+
+theorem pushGrades_length (b : α) : ∀ (es : List (Elev α)) (G : List (PRC α)) (n : α),
+    (pushGrades G b n es).1.length = G.length + (es.length - 1)
+  | [], G, n => by simp [pushGrades]
+  | [_], G, n => by simp [pushGrades]
+  | p :: c :: t, G, n => by
+    rw [pushGrades, pushGrades_length b (c :: t)]
+    simp only [List.length_append, setLast_length, List.length_cons, List.length_nil]
+    omega
+
+theorem pushCurves_length (g : GeoConsts α) (par : TrainPar α) (b : α) :
+    ∀ (hs : List (Heading α)) (C : List (PRC α)) (n : α),
+    (pushCurves g par C b n hs).1.length = C.length + (hs.length - 1)
+  | [], C, n => by simp [pushCurves]
+  | [_], C, n => by simp [pushCurves]
+  | p :: c :: t, C, n => by
+    rw [pushCurves, pushCurves_length g par b (c :: t)]
+    simp only [List.length_append, setLast_length, List.length_cons, List.length_nil]
+    omega
+
+theorem lastR_of_ne_nil {β : Type} {l : List β} (h : l ≠ []) : ∃ x, lastR l = .ok x := by
+  obtain ⟨L, x, rfl⟩ := eq_append_of_ne_nil h
+  exact ⟨x, lastR_append_singleton L x⟩
+
+/-- one loop-2 step on an in-range link cannot fail; the profiles never shrink and `grades` grows
+    unless the link has exactly one elevation point -/
+theorem extendGeometry_total (g : GeoConsts α) (net : List (Link α)) (s : Tpc α) (idx : Nat) (l : Link α)
+    (hl : net[idx]? = some l) (hg : s.grades ≠ []) (hc : s.curves ≠ []) :
+    ∃ s', extendGeometry g net s idx = .ok s' ∧ s.grades.length ≤ s'.grades.length ∧
+      s.curves.length ≤ s'.curves.length ∧ (l.elevs.length ≠ 1 → s.grades.length < s'.grades.length) := by
+  obtain ⟨lg, hlg⟩ := lastR_of_ne_nil hg
+  obtain ⟨lc, hlc⟩ := lastR_of_ne_nil hc
+  rw [extendGeometry_eq, getL_of_some hl, hlg, hlc]
+  refine ⟨_, rfl, ?_, ?_, ?_⟩
+  · dsimp only; split_ifs
+    · simp
+    · rw [pushGrades_length]; omega
+  · dsimp only; split_ifs
+    · simp
+    · rw [pushCurves_length]; omega
+  · intro h1; dsimp only; split_ifs with he
+    · simp
+    · rw [pushGrades_length]
+      have : l.elevs.length ≠ 0 := by
+        intro h0; apply he; rw [List.length_eq_zero_iff.mp h0]; rfl
+      omega
+
+theorem geo_fold_total (g : GeoConsts α) (net : List (Link α)) :
+    ∀ (links : List (Link α)) (route : List Nat) (s : Tpc α), Resolves net route links →
+    s.grades ≠ [] → s.curves ≠ [] →
+    ∃ s', foldR (extendGeometry g net) s route = .ok s' ∧ s.grades.length ≤ s'.grades.length ∧
+      s.curves.length ≤ s'.curves.length ∧
+      (links ≠ [] → (∀ l ∈ links, l.elevs.length ≠ 1) → s.grades.length < s'.grades.length) := by
+  intro links
+  induction links with
+  | nil =>
+    intro route s hres hg hc
+    rw [resolves_nil] at hres; subst hres
+    exact ⟨s, rfl, le_refl _, le_refl _, fun h => absurd rfl h⟩
+  | cons l ls ih =>
+    intro route s hres hg hc
+    obtain ⟨i, r, rfl, hl, hres'⟩ := resolves_cons.mp hres
+    obtain ⟨s1, h1, a1, b1, c1⟩ := extendGeometry_total g net s i l hl hg hc
+    have hg1 : s1.grades ≠ [] := by
+      intro h0; rw [h0] at a1; simp at a1; exact hg a1
+    have hc1 : s1.curves ≠ [] := by
+      intro h0; rw [h0] at b1; simp at b1; exact hc b1
+    obtain ⟨s', h2, a2, b2, _⟩ := ih r s1 hres' hg1 hc1
+    refine ⟨s', by rw [foldR_cons, h1, bind_ok, h2], le_trans a1 a2, le_trans b1 b2, ?_⟩
+    intro _ hall
+    exact lt_of_lt_of_le (c1 (hall l (by simp))) a2
+
+/-! ### the prelude -/
+
+theorem prelude_nil (net : List (Link α)) (t : Tpc α) : prelude net t [] = .ok t := by
+  unfold prelude; simp [pure]
+
+theorem prelude_of_len (net : List (Link α)) (t : Tpc α) (p : List Nat) (h : t.grades.length ≠ 1) :
+    prelude net t p = .ok t := by
+  unfold prelude; simp [h, pure]
+
+theorem prelude_append (net : List (Link α)) (t : Tpc α) (i : Nat) (a b : List Nat) :
+    prelude net t (i :: a ++ b) = prelude net t (i :: a) := by
+  unfold prelude
+  have h1 : getL (i :: (a ++ b)) 0 = .ok i := getL_of_some (by simp)
+  have h2 : getL (i :: a) 0 = .ok i := getL_of_some (by simp)
+  simp only [List.cons_append, List.isEmpty_cons, h1, h2]
+
+/-- the prelude touches only the cumulative value of the last grade point -/
+theorem prelude_writes (net : List (Link α)) {t t0 : Tpc α} {p : List Nat} (h : prelude net t p = .ok t0) :
+    t0 = { t with grades := t0.grades } ∧ t0.grades.length = t.grades.length := by
+  unfold prelude at h
+  split_ifs at h
+  · simp only [bind, pure] at h
+    obtain ⟨_, _, h⟩ := bind_eq_ok.mp h
+    obtain ⟨l, _, h⟩ := bind_eq_ok.mp h
+    split at h
+    · cases h; exact ⟨rfl, setLast_length _ _⟩
+    · cases h; exact ⟨rfl, rfl⟩
+  · cases h; exact ⟨rfl, rfl⟩
+
+theorem ensure_ok_ne_nil {β : Type} {l : List β} {tag : String} {u : Unit}
+    (h : ensure (!l.isEmpty) tag = .ok u) : l ≠ [] := by
+  intro h0; subst h0; simp [ensure] at h
+
+theorem ensure_of_ne_nil {β : Type} {l : List β} (tag : String) (h : l ≠ []) :
+    ensure (!l.isEmpty) tag = .ok () := by
+  cases l with
+  | nil => exact absurd rfl h
+  | cons _ _ => rfl
+
+theorem extend_of_ne_nil (toU32 : α → Nat) (g : GeoConsts α) (net : List (Link α)) (t : Tpc α)
+    (p : List Nat) (h1 : t.linkPoints ≠ []) (h2 : t.grades ≠ []) (h3 : t.curves ≠ [])
+    (h4 : t.speedPoints ≠ []) : extend toU32 g net t p = extendCore toU32 g net t p := by
+  rw [extend_eq, ensure_of_ne_nil _ h1, ensure_of_ne_nil _ h2, ensure_of_ne_nil _ h3,
+    ensure_of_ne_nil _ h4]
+  rfl
+
+theorem extendCore_nil (toU32 : α → Nat) (g : GeoConsts α) (net : List (Link α)) (t : Tpc α) :
+    extendCore toU32 g net t [] = .ok t := by
+  unfold extendCore; rw [prelude_nil]; rfl
+
+theorem resolves_mem {net : List (Link α)} : ∀ {route : List Nat} {links : List (Link α)},
+    Resolves net route links → ∀ l ∈ links, ∃ i ∈ route, net[i]? = some l := by
+  intro route links
+  induction links generalizing route with
+  | nil => intro _ l hl; simp at hl
+  | cons x xs ih =>
+    intro hres l hl
+    obtain ⟨i, r, rfl, hi, hres'⟩ := resolves_cons.mp hres
+    rcases List.mem_cons.mp hl with rfl | hl
+    · exact ⟨i, by simp, hi⟩
+    · obtain ⟨j, hj, hjl⟩ := ih hres' l hl
+      exact ⟨j, by simp [hj], hjl⟩
+
+theorem length_pos_of_ne_nil' {β : Type} {l : List β} (h : l ≠ []) : 1 ≤ l.length := by
+  cases l with
+  | nil => exact absurd rfl h
+  | cons _ _ => simp
+
+/-- **`extend` over a concatenated route = two successive `extend` calls** (all fields, and the same
+    error/panic outcome).  The hypothesis is forced: on a fresh path (`grades.len() == 1`) a first
+    part consisting only of one-elevation-point links leaves `grades.len() == 1`, so the second call
+    would re-apply the initial elevation (`extend_append_counterexample`). -/
+theorem extend_append (toU32 : α → Nat) (g : GeoConsts α) (net : List (Link α)) (t : Tpc α)
+    (a b : List Nat)
+    (h1 : t.grades.length = 1 → ∀ i ∈ a, ∀ l, net[i]? = some l → l.elevs.length ≠ 1) :
+    extend toU32 g net t (a ++ b) =
+      (extend toU32 g net t a).bind (fun t' => extend toU32 g net t' b) := by
+  rw [extend_eq toU32 g net t (a ++ b), extend_eq toU32 g net t a]
+  cases e1 : ensure (!t.linkPoints.isEmpty) "link-points-empty" with
+  | err e => rfl
+  | panic e => rfl
+  | ok u1 =>
+  cases e2 : ensure (!t.grades.isEmpty) "grades-empty" with
+  | err e => rfl
+  | panic e => rfl
+  | ok u2 =>
+  cases e3 : ensure (!t.curves.isEmpty) "curves-empty" with
+  | err e => rfl
+  | panic e => rfl
+  | ok u3 =>
+  cases e4 : ensure (!t.speedPoints.isEmpty) "speed-points-empty" with
+  | err e => rfl
+  | panic e => rfl
+  | ok u4 =>
+  have n1 := ensure_ok_ne_nil e1
+  have n2 := ensure_ok_ne_nil e2
+  have n3 := ensure_ok_ne_nil e3
+  have n4 := ensure_ok_ne_nil e4
+  simp only [bind_ok]
+  cases a with
+  | nil =>
+    rw [List.nil_append, extendCore_nil, bind_ok, extend_of_ne_nil toU32 g net t b n1 n2 n3 n4]
+  | cons i a' =>
+    unfold extendCore
+    rw [prelude_append]
+    cases hp : prelude net t (i :: a') with
+    | err e => rfl
+    | panic e => rfl
+    | ok t0 =>
+    simp only [bind_ok]
+    rw [foldR_append]
+    cases hl : foldR (extendLinkPoint toU32 net) t0 (i :: a') with
+    | err e => rfl
+    | panic e => rfl
+    | ok t1 =>
+    simp only [bind_ok]
+    obtain ⟨links, hres⟩ := lp_fold_resolves toU32 net _ _ _ hl
+    obtain ⟨hw0, hlen0⟩ := prelude_writes net hp
+    have hw1 := lp_fold_writes toU32 net _ _ _ hl
+    have t0lp : t0.linkPoints = t.linkPoints := by rw [hw0]
+    have t0sp : t0.speedPoints = t.speedPoints := by rw [hw0]
+    have t0cu : t0.curves = t.curves := by rw [hw0]
+    have t1gr : t1.grades = t0.grades := by rw [hw1]; rfl
+    have t1cu : t1.curves = t0.curves := by rw [hw1]; rfl
+    obtain ⟨m1, m2⟩ := lp_fold_ne_nil toU32 net _ _ _ hl (by rw [t0lp]; exact n1) (by rw [t0sp]; exact n4)
+    have g1 : t1.grades ≠ [] := by
+      intro h0; rw [t1gr] at h0; rw [h0] at hlen0; exact n2 (List.length_eq_zero_iff.mp hlen0.symm)
+    have c1 : t1.curves ≠ [] := by rw [t1cu, t0cu]; exact n3
+    obtain ⟨tA, hA, la, lc, lstrict⟩ := geo_fold_total g net links (i :: a') t1 hres g1 c1
+    have hwA := geo_fold_writes g net _ _ _ hA
+    have tAlp : tA.linkPoints = t1.linkPoints := by rw [hwA]; rfl
+    have tAsp : tA.speedPoints = t1.speedPoints := by rw [hwA]; rfl
+    have tApar : tA.par = t1.par := by rw [hwA]; rfl
+    have tAfin : tA.isFinished = t1.isFinished := by rw [hwA]; rfl
+    have gA : tA.grades ≠ [] := by
+      intro h0; have := length_pos_of_ne_nil' g1; rw [h0, List.length_nil] at la; omega
+    have cA : tA.curves ≠ [] := by
+      intro h0; have := length_pos_of_ne_nil' c1; rw [h0, List.length_nil] at lc; omega
+    have lenA : tA.grades.length ≠ 1 := by
+      have hl1 : t1.grades.length = t.grades.length := by rw [t1gr, hlen0]
+      by_cases ht : t.grades.length = 1
+      · have hlinks : links ≠ [] := by
+          intro h0; subst h0; exact absurd (resolves_nil.mp hres) (by simp)
+        have := lstrict hlinks (fun l hl' => by
+          obtain ⟨j, hj, hjl⟩ := resolves_mem hres l hl'
+          exact h1 ht j hj l hjl)
+        omega
+      · have := length_pos_of_ne_nil' n2; omega
+    rw [hA, bind_ok, extend_of_ne_nil toU32 g net tA b (by rw [tAlp]; exact m1) gA cA (by rw [tAsp]; exact m2)]
+    unfold extendCore
+    rw [prelude_of_len net tA b lenA, bind_ok, lp_frame toU32 net b t1 tA tAlp tAsp tApar, bind_rmap]
+    cases h2 : foldR (extendLinkPoint toU32 net) t1 b with
+    | err e => rfl
+    | panic e => rfl
+    | ok t2 =>
+    simp only [bind_ok]
+    have hw2 := lp_fold_writes toU32 net _ _ _ h2
+    have t2gr : t2.grades = t1.grades := by rw [hw2]; rfl
+    have t2cu : t2.curves = t1.curves := by rw [hw2]; rfl
+    have t2ca : t2.cats = t1.cats := by rw [hw2]; rfl
+    have t2par : t2.par = t1.par := by rw [hw2]; rfl
+    have t2fin : t2.isFinished = t1.isFinished := by rw [hw2]; rfl
+    rw [foldR_append, geo_frame g net (i :: a') t1 t2 t2gr t2cu t2ca t2par, hA]
+    have : geoSet t2 tA = lpSet tA t2 := by
+      cases t2; cases tA
+      simp only [geoSet, lpSet] at *
+      simp only [t2par, t2fin, tApar, tAfin]
+    simp only [rmap, bind_ok, this]
+
+/-- successive `extend` calls, one per part -/
+def extendSeq (toU32 : α → Nat) (g : GeoConsts α) (net : List (Link α)) (t : Tpc α)
+    (parts : List (List Nat)) : Res (Tpc α) :=
+  foldR (extend toU32 g net) t parts
+
+/-- any partition of a route into successive `extend` calls gives the outcome of the single call -/
+theorem extendSeq_eq (toU32 : α → Nat) (g : GeoConsts α) (net : List (Link α))
+    (hnet : ∀ l ∈ net, l.elevs.length ≠ 1) :
+    ∀ (parts : List (List Nat)) (t : Tpc α), parts ≠ [] →
+      extendSeq toU32 g net t parts = extend toU32 g net t parts.flatten := by
+  intro parts
+  induction parts with
+  | nil => intro t h; exact absurd rfl h
+  | cons p ps ih =>
+    intro t _
+    cases ps with
+    | nil =>
+      simp only [extendSeq, foldR_cons, foldR_nil, List.flatten_cons, List.flatten_nil, List.append_nil]
+      exact bind_pure_ok _
+    | cons q qs =>
+      have happ := extend_append toU32 g net t p (q :: qs).flatten
+        (fun _ i _ l hl => hnet l (List.mem_of_getElem? hl))
+      rw [List.flatten_cons, happ]
+      unfold extendSeq
+      rw [foldR_cons]
+      congr 1; funext t'
+      exact ih t' (by simp)
+
+theorem prelude_ok_of_first (net : List (Link α)) (t : Tpc α) (idx : Nat) (rest : List Nat) (l : Link α)
+    (hl : net[idx]? = some l) : ∃ t0, prelude net t (idx :: rest) = .ok t0 := by
+  unfold prelude
+  have h0 : getL (idx :: rest) 0 = .ok idx := getL_of_some (by simp)
+  split_ifs
+  · simp only [bind, h0, bind_ok, getL_of_some hl, pure]
+    split <;> exact ⟨_, rfl⟩
+  · exact ⟨_, rfl⟩
+
+/-- the first link of a call is rejected with `Err` when it is fake or not linked to the link in
+    front of it (the last link already in the path) -/
+theorem extend_reject_first (toU32 : α → Nat) (g : GeoConsts α) (net : List (Link α)) (t : Tpc α)
+    (idx : Nat) (rest : List Nat) (L : List (LinkPt α)) (last : LinkPt α) (l : Link α)
+    (hL : t.linkPoints = L ++ [last]) (hg : t.grades ≠ []) (hc : t.curves ≠ [])
+    (hs : t.speedPoints ≠ []) (hl : net[idx]? = some l)
+    (hbad : idx = 0 ∨ linkedOpt (L.getLast?.map (·.linkIdx)) l = false) :
+    ∃ tag, extend toU32 g net t (idx :: rest) = .err tag := by
+  rw [extend_of_ne_nil toU32 g net t _ (by rw [hL]; simp) hg hc hs]
+  unfold extendCore
+  obtain ⟨t0, ht0⟩ := prelude_ok_of_first net t idx rest l hl
+  obtain ⟨hw0, _⟩ := prelude_writes net ht0
+  have t0lp : t0.linkPoints = L ++ [last] := by rw [hw0]; exact hL
+  rw [ht0, bind_ok, foldR_cons, extendLinkPoint_eq]
+  by_cases h0 : idx = 0
+  · subst h0; exact ⟨_, rfl⟩
+  · have hi : (idx != 0) = true := by simpa using h0
+    rcases hbad with hbad | hbad
+    · exact absurd hbad h0
+    · obtain ⟨tag, htag⟩ := (contigChecks_eq L last l).2 hbad
+      rw [hi, ensure_true, bind_ok, getL_of_some hl, bind_ok, t0lp, lastR_append_singleton, bind_ok, htag]
+      exact ⟨tag, rfl⟩
+
+/-- an accepted `extend` leaves the four vectors non-empty -/
+theorem extend_ok_ne_nil (toU32 : α → Nat) (g : GeoConsts α) (net : List (Link α)) {t t' : Tpc α}
+    {p : List Nat} (h : extend toU32 g net t p = .ok t') :
+    t'.linkPoints ≠ [] ∧ t'.grades ≠ [] ∧ t'.curves ≠ [] ∧ t'.speedPoints ≠ [] := by
+  rw [extend_eq] at h
+  obtain ⟨_, e1, h⟩ := bind_eq_ok.mp h
+  obtain ⟨_, e2, h⟩ := bind_eq_ok.mp h
+  obtain ⟨_, e3, h⟩ := bind_eq_ok.mp h
+  obtain ⟨_, e4, h⟩ := bind_eq_ok.mp h
+  have n1 := ensure_ok_ne_nil e1
+  have n2 := ensure_ok_ne_nil e2
+  have n3 := ensure_ok_ne_nil e3
+  have n4 := ensure_ok_ne_nil e4
+  unfold extendCore at h
+  obtain ⟨t0, hp, h⟩ := bind_eq_ok.mp h
+  obtain ⟨t1, hl, h⟩ := bind_eq_ok.mp h
+  obtain ⟨links, hres⟩ := lp_fold_resolves toU32 net _ _ _ hl
+  obtain ⟨hw0, hlen0⟩ := prelude_writes net hp
+  have hw1 := lp_fold_writes toU32 net _ _ _ hl
+  have t0lp : t0.linkPoints = t.linkPoints := by rw [hw0]
+  have t0sp : t0.speedPoints = t.speedPoints := by rw [hw0]
+  have t0cu : t0.curves = t.curves := by rw [hw0]
+  have t1gr : t1.grades = t0.grades := by rw [hw1]; rfl
+  have t1cu : t1.curves = t0.curves := by rw [hw1]; rfl
+  obtain ⟨m1, m2⟩ := lp_fold_ne_nil toU32 net _ _ _ hl (by rw [t0lp]; exact n1) (by rw [t0sp]; exact n4)
+  have g1 : t1.grades ≠ [] := by
+    intro h0; rw [t1gr] at h0; rw [h0] at hlen0; exact n2 (List.length_eq_zero_iff.mp hlen0.symm)
+  have c1 : t1.curves ≠ [] := by rw [t1cu, t0cu]; exact n3
+  obtain ⟨tA, hA, la, lc, _⟩ := geo_fold_total g net links p t1 hres g1 c1
+  rw [hA] at h; cases h
+  have hwA := geo_fold_writes g net _ _ _ hA
+  have tAlp : t'.linkPoints = t1.linkPoints := by rw [hwA]; rfl
+  have tAsp : t'.speedPoints = t1.speedPoints := by rw [hwA]; rfl
+  refine ⟨by rw [tAlp]; exact m1, ?_, ?_, by rw [tAsp]; exact m2⟩
+  · intro h0; have := length_pos_of_ne_nil' g1; rw [h0, List.length_nil] at la; omega
+  · intro h0; have := length_pos_of_ne_nil' c1; rw [h0, List.length_nil] at lc; omega
+
+/-- a link in the middle of a route: if everything before it is accepted, the link is in range, and it
+    is fake or not linked to its predecessor, the whole call returns `Err` -/
+theorem extend_reject (toU32 : α → Nat) (g : GeoConsts α) (net : List (Link α)) (t t1 : Tpc α)
+    (pre : List Nat) (idx : Nat) (rest : List Nat) (L : List (LinkPt α)) (last : LinkPt α) (l : Link α)
+    (h1 : t.grades.length = 1 → ∀ i ∈ pre, ∀ l, net[i]? = some l → l.elevs.length ≠ 1)
+    (hpre : extend toU32 g net t pre = .ok t1) (hL : t1.linkPoints = L ++ [last])
+    (hl : net[idx]? = some l)
+    (hbad : idx = 0 ∨ linkedOpt (L.getLast?.map (·.linkIdx)) l = false) :
+    ∃ tag, extend toU32 g net t (pre ++ idx :: rest) = .err tag := by
+  rw [extend_append toU32 g net t pre (idx :: rest) h1, hpre, bind_ok]
+  obtain ⟨_, n2, n3, n4⟩ := extend_ok_ne_nil toU32 g net hpre
+  exact extend_reject_first toU32 g net t1 idx rest L last l hL n2 n3 n4 hl hbad
+
+/-- an accepted call passed every fake-index and contiguity check -/
+theorem extend_ok_contig (toU32 : α → Nat) (g : GeoConsts α) (net : List (Link α)) {t t' : Tpc α}
+    {route : List Nat} {links : List (Link α)} {L : List (LinkPt α)} {last : LinkPt α}
+    (h : extend toU32 g net t route = .ok t') (hres : Resolves net route links)
+    (hL : t.linkPoints = L ++ [last]) :
+    (∀ i ∈ route, i ≠ 0) ∧ contig (L.getLast?.map (·.linkIdx)) links = true := by
+  rw [extend_eq] at h
+  obtain ⟨_, e1, h⟩ := bind_eq_ok.mp h
+  obtain ⟨_, e2, h⟩ := bind_eq_ok.mp h
+  obtain ⟨_, e3, h⟩ := bind_eq_ok.mp h
+  obtain ⟨_, e4, h⟩ := bind_eq_ok.mp h
+  unfold extendCore at h
+  obtain ⟨t0, hp, h⟩ := bind_eq_ok.mp h
+  obtain ⟨t1, hl, h⟩ := bind_eq_ok.mp h
+  obtain ⟨hw0, _⟩ := prelude_writes net hp
+  have t0lp : t0.linkPoints = L ++ [last] := by rw [hw0]; exact hL
+  obtain ⟨a, b, _⟩ := (lp_fold_ok_iff toU32 net links route t0 t1 L last hres t0lp).mp hl
+  exact ⟨a, b⟩
+
+/-- `contig` spelled out: the first link against `prev`, then every consecutive pair -/
+theorem contig_iff : ∀ (links : List (Link α)) (prev : Option Nat),
+    contig prev links = true ↔
+      (∀ l, links.head? = some l → linkedOpt prev l = true) ∧
+      links.IsChain (fun a b => linked a.idxCurr b = true)
+  | [], prev => by simp [contig]
+  | [l], prev => by simp [contig]
+  | l :: l' :: ls, prev => by
+    rw [contig, Bool.and_eq_true, contig_iff (l' :: ls), List.isChain_cons_cons]
+    simp [linkedOpt]
+
 end defs
 
 /-! ## Over an ordered field -/
@@ -777,6 +1440,41 @@ theorem routeLPs_getLast : ∀ (links : List (Link α)) (last : LinkPt α), link
     obtain ⟨x, xs, hx⟩ := List.exists_cons_of_ne_nil hne
     rw [routeLPs, hx, List.getLast?_cons_cons, ← hx, this]
     simp only [routeLen]; congr 2; ring
+
+theorem gradeCount_ok {l : Link α} (h : LinkOK l) : max l.elevs.length 2 - 1 = l.elevs.length - 1 := by
+  have := h.elev_two; omega
+
+theorem curveCount_ok {l : Link α} (h : LinkOK l) :
+    max l.headings.length 2 - 1 = if l.headings.isEmpty then 1 else l.headings.length - 1 := by
+  rcases h.head_ok with h0 | ⟨h2, _⟩
+  · rw [h0]; rfl
+  · have : l.headings.isEmpty = false := by
+      cases hh : l.headings with
+      | nil => rw [hh] at h2; simp at h2
+      | cons _ _ => rfl
+    rw [this]; simp only [Bool.false_eq_true, if_false]; omega
+
+/-- the count cross-checks are preserved by the closed forms of one `extend` call -/
+theorem counts_closed (g : GeoConsts α) (links : List (Link α)) (hok : ∀ l ∈ links, LinkOK l)
+    (L : List (LinkPt α)) (last : LinkPt α) (G C : List (PRC α)) (gl cl : PRC α)
+    (K : List (CatLim α)) (sp sp' : List (Pt α)) (par : TrainPar α) (fin : Bool) (b cg n cc nc : α)
+    (h : countsConsistent (⟨L ++ [last], G ++ [gl], C ++ [cl], sp, K, par, fin⟩ : Tpc α) = true) :
+    countsConsistent (⟨L ++ routeLPs last links, G ++ routeGrades b cg n links,
+      C ++ routeCurves g par b cc nc links, sp', K ++ routeCats b links, par, fin⟩ : Tpc α) = true := by
+  have s1 : links.map (fun l => max l.elevs.length 2 - 1) = links.map (fun l => l.elevs.length - 1) :=
+    List.map_congr_left fun l hl => gradeCount_ok (hok l hl)
+  have s2 : links.map (fun l => max l.headings.length 2 - 1) =
+      links.map (fun l => if l.headings.isEmpty then 1 else l.headings.length - 1) :=
+    List.map_congr_left fun l hl => curveCount_ok (hok l hl)
+  simp only [countsConsistent, List.dropLast_concat, Bool.and_eq_true, beq_iff_eq, foldl_count,
+    List.length_append, List.length_singleton, Nat.zero_add] at h
+  have hd : (L ++ routeLPs last links).dropLast = L ++ lpsBody last.off links := by
+    rw [List.dropLast_append_of_ne_nil (routeLPs_ne_nil last links), routeLPs_dropLast]
+  simp only [countsConsistent, hd,
+    Bool.and_eq_true, beq_iff_eq, foldl_count, List.length_append, List.map_append, List.sum_append,
+    lpsBody_gradeCount, lpsBody_curveCount, lpsBody_catCount, routeGrades_length, routeCurves_length,
+    routeCats_length, s1, s2, Nat.zero_add]
+  omega
 
 end field
 
